@@ -27,6 +27,7 @@ The correspondence component `life` ties `Op.poll/update/dropFut` to
 allocator under the simulated kernel.
 -/
 import A10Verif.Lemmas.OpInv
+import A10Verif.Lemmas.LifeRefine
 
 namespace A10.OpSys
 open A10
@@ -157,3 +158,34 @@ example :
     (run (init false) es).submits = 2 ∧ (run (init false) es).op.resInit = true := by decide
 
 end A10.OpSys
+
+namespace A10.Life
+open A10
+
+/-! ### The same statements for EVERY reachable state of the multi-operation system
+
+`Lemmas/LifeRefine.lean` proves that the projection of any run of `Model/Life.lean` (any number of
+concurrent operations sharing the submission and completion queues, any interleaving of polls,
+drops, kernel completions, `Ring::poll` calls and the drop of the Ring) on one operation is a run of
+the single-operation system above; hence its invariant holds for every operation in every reachable
+system state. -/
+
+/-- **C01, system level.** In every reachable state of the multi-operation system, every
+operation with a published or consumed submission whose final completion the kernel has not posted
+has its state box and its resources in place, is `Running`/`Dropped`, and is out of reach of the
+builder setters. -/
+theorem C01_system_kernel_memory {s : Sys} (hr : Reachable s) (i : Nat) (o : Op)
+    (ho : s.ops[i]? = some o) (href : SqEntry.op i ∈ s.sq ∨ i ∈ s.inflight) :
+    o.boxLive = true ∧ o.resInit = true ∧ o.resDrops = 0 ∧
+      (OpSys.isRunning o.status = true ∨ o.status = Status.dropped) ∧ o.builderAccess = false :=
+  life_kernel_memory hr i o ho href
+
+/-- **No dereference after free, system level.** Every completion in the completion queue or on
+the kernel's overflow list that names an operation names an allocated operation state. -/
+theorem C01_system_no_deref_after_free {s : Sys} (hr : Reachable s) (c : Cqe)
+    (hc : c ∈ s.cq ++ s.overflow) (i : Nat) (hu : c.ud = Ud.op i) (hs : fSkip c.flags = false) :
+    i < s.ops.length ∧ ∃ o, s.ops[i]? = some o ∧ o.boxLive = true ∧
+      (OpSys.isRunning o.status = true ∨ o.status = Status.dropped) :=
+  life_no_deref_after_free hr c hc i hu hs
+
+end A10.Life
